@@ -352,3 +352,69 @@ func DumpLogs() string {
 	}
 	return b.String()
 }
+
+// ---------------------------------------------------------------------------------------------
+// Co: a goroutine-backed coroutine with the iterator API. Used ONLY by the native reference
+// twins that the corpus generator prints next to every program (never executed by the engine):
+// an independent, direct statement of "Yield suspends the function, MoveNext resumes it".
+
+type coMsg[T any] struct {
+	v     T
+	done  bool
+	panic any
+}
+
+type Co[T any] struct {
+	body    func(yield func(T))
+	resume  chan struct{}
+	out     chan coMsg[T]
+	started bool
+	done    bool
+	cur     T
+}
+
+func NewCo[T any](body func(yield func(T))) *Co[T] {
+	return &Co[T]{body: body, resume: make(chan struct{}), out: make(chan coMsg[T])}
+}
+
+func (c *Co[T]) MoveNext() bool {
+	if c.done {
+		return false
+	}
+	if !c.started {
+		c.started = true
+		go func() {
+			defer func() {
+				r := recover()
+				c.out <- coMsg[T]{done: true, panic: r}
+			}()
+			c.body(func(v T) {
+				c.out <- coMsg[T]{v: v}
+				<-c.resume
+			})
+		}()
+	} else {
+		c.resume <- struct{}{}
+	}
+	m := <-c.out
+	if m.done {
+		c.done = true
+		var z T
+		c.cur = z
+		if m.panic != nil {
+			panic(m.panic)
+		}
+		return false
+	}
+	c.cur = m.v
+	return true
+}
+
+func (c *Co[T]) Current() T { return c.cur }
+
+// YieldFromCo is the textbook reading of YieldFrom: deliver every remaining element of d.
+func YieldFromCo[T any](yield func(T), d *Co[T]) {
+	for d.MoveNext() {
+		yield(d.Current())
+	}
+}
